@@ -23,7 +23,7 @@ EXPLANATION = (
     "remaining returns 'nothing ready', other errors re-raised, poll in milliseconds; (D5) from the timeout-bounded "
     "entries no call chain reaches an unbounded blocking primitive whose timeout is absent / None / not derived "
     "from the entry's timeout -- ptyprocess is parsed for this; (D6) per transport the library's 'nothing arrived' "
-    "signals are translated to TIMEOUT; (D7) the socket's own timeout is restored in a finally. NOT decided: any "
+    "signals are translated to TIMEOUT; (D7) the socket read happens under the temporary timeout derived from the caller's timeout (leaving the socket's own setting as found is C06-D5). NOT decided: any "
     "wall-clock bound, scheduler behaviour.")
 TRUSTED = ["os.waitpid(pid, 0) blocks, with WNOHANG it does not; select/poll honour their timeout, None = forever",
            "socket.settimeout(t)/recv: socket.timeout for t>0, BlockingIOError for t==0", "sa/ engine"]
@@ -234,8 +234,8 @@ def run(R):
         check_pty_polls(c, repo)
     with R.clause('D6', 'TAB', floor=3, desc='"nothing arrived in time" is reported as TIMEOUT on every transport') as c:
         check_nodata(c, repo)
-    with R.clause('D7', 'PAIR', floor=3, desc='socket timeout saved, set, and restored in a finally; recv inside') as c:
-        check_socket_timeout(c, repo)
+    with R.clause('D7', 'PAIR', floor=2, desc='socket: recv happens under the temporary timeout derived from the caller\'s timeout') as c:
+        check_socket_timeout(c, repo, restore=False)
 
 
 def _normalised_before(S, caller, var, call):
@@ -572,7 +572,9 @@ def check_nodata(c, repo):
     c.check(len(rs) >= 1, f, rs[0].ast if rs else None, 'pty: nothing readable and child alive -> TIMEOUT', kind='ast', tag='pty-timeout')
 
 
-def check_socket_timeout(c, repo):
+def check_socket_timeout(c, repo, restore=True):
+    """restore=True (C06-D5): also require that the socket's own timeout is put back in a finally;
+    restore=False (C05-D7): only that recv runs under a timeout derived from the caller's."""
     f = repo.func('socket_pexpect:SocketSpawn._timeout')
     g = f.cfg
     saves = [n for n in g.nodes if n.kind == 'stmt' and isinstance(n.ast, ast.Assign) and isinstance(n.ast.value, ast.Call)
@@ -588,11 +590,12 @@ def check_socket_timeout(c, repo):
             if isinstance(p, ast.Try) and any(k is d for s2 in p.finalbody for d in ast.walk(s2)) \
                     and any(ys[0] is d for s2 in p.body for d in ast.walk(s2)):
                 in_finally = True
-    c.check(bool(restores) and in_finally, f, restores[0] if restores else f.node,
-            'the saved timeout is restored in a finally clause that covers the yield (the body of the with statement), '
-            'so an exception or TIMEOUT inside recv cannot leave the socket with the temporary timeout',
-            witness='restore calls: %s; inside a finally covering the yield: %s' % ([norm(k) for k in restores], in_finally),
-            kind='ast', tag='restore-finally')
+    if restore:
+        c.check(bool(restores) and in_finally, f, restores[0] if restores else f.node,
+                'the saved timeout is restored in a finally clause that covers the yield (the body of the with statement), '
+                'so an exception or TIMEOUT inside recv cannot leave the socket with the temporary timeout',
+                witness='restore calls: %s; inside a finally covering the yield: %s' % ([norm(k) for k in restores], in_finally),
+                kind='ast', tag='restore-finally')
     sets = [k for k in calls_in(f.node) if callee_last(k) == 'settimeout' and k not in restores]
     okorder = bool(sets) and all(g.dominated_by(g.node_for(k), {saves[0]})[0] for k in sets if g.node_for(k) is not None)
     c.check(okorder, f, saves[0].ast, 'the old timeout is read before it is changed', kind='path', tag='save-first')
@@ -634,7 +637,7 @@ MUTANTS = [
     ('read-waits', 'pty_spawn', "        if not self.isalive():\n            # The process is dead, but there may or may not be data", "        if self.flag_eof:\n            self.ptyproc.wait()\n        if not self.isalive():\n            # The process is dead, but there may or may not be data", 'D5'),
     ('queue-blocking-get', 'popen_spawn', "incoming = self._read_queue.get_nowait()", "incoming = self._read_queue.get()", 'D5'),
     ('socket-no-blockingio', 'socket_pexpect', "        except (socket.timeout, BlockingIOError):", "        except socket.timeout:", 'D6'),
-    ('socket-restore-not-finally', 'socket_pexpect', "        try:\n            self.socket.settimeout(timeout)\n            yield\n        finally:\n            self.socket.settimeout(saved_timeout)", "        self.socket.settimeout(timeout)\n        yield\n        self.socket.settimeout(saved_timeout)", 'D7'),
+    ('socket-recv-outside-with', 'socket_pexpect', "            with self._timeout(timeout):\n                s = self.socket.recv(size)", "            with self._timeout(timeout):\n                pass\n            if True:\n                s = self.socket.recv(size)", 'D7'),
     ('fd-select-default', 'fdpexpect', "                rlist = poll_ignore_interrupts(rlist, timeout)", "                rlist = poll_ignore_interrupts(rlist, self.timeout)", 'D5'),
     ('prompt-no-norm', 'replwrap', "        return self.child.expect_exact([self.prompt, self.continuation_prompt],\n                                       timeout=timeout, async_=async_)", "        end = time.time() + timeout\n        return self.child.expect_exact([self.prompt, self.continuation_prompt],\n                                       timeout=timeout, async_=async_)", 'D1'),
 ]
